@@ -559,6 +559,11 @@ def gen_trees(tier, rnd):
     # random larger trees over everything supported
     for _ in range(3000 if tier == 'quick' else 60000):
         add(rand_expr(rnd, rnd.randint(1, 6), supported_only=True, parser_shapes_only=True, p_action=rnd.choice([0, 0.1, 0.3, 0.5])), 'random')
+    # two matchers / destinations whose strings differ only up to a plausible normalisation or collide under key
+    # concatenation (they must stay two resources: the policy is executed on matching and near-miss names)
+    for t in (twin_trees() + key_twin_trees())[::(4 if tier == 'quick' else 1)]:
+        if 'FilePrintFormatted' not in t:
+            add(t, 'twins')
     # through the parser as well
     for _ in range(300 if tier == 'quick' else 3000):
         lines.append('C %s %s' % (hx(rand_compilable_text(rnd)), DEV))
